@@ -293,3 +293,29 @@ example :
       = [(4, 1, true, 2, 1), (4, 3, true, 2, 1), (1, 2, true, 1, 2)] ∧
     (cwatershedModel surf mk [3, 3] bc).lines = #[false, true, true, true, false, false] := by
   decide +kernel
+
+/-- **C04-T8c (lines of the specification flooding, exactly, over its own trace).** `cwatershedSpecTrace`
+is the list of neighbour visits of the specification flooding, in order (defined in step with `specRun`:
+same `extractMin`, same `specVisit` fold): one event for every popped pixel `p` and every offset with
+`q = p + off` inside the image, recording `p`, `q`, whether `q` is in the queue, and the labels of `p` and
+`q` at that moment. For every surface, marker image, neighbourhood and position `r` — no hypothesis —
+`lines[r]` is True in the specification's output **iff** some visit of its trace looked at `r` while `r`
+was labelled and in the queue (assigned a label, not yet popped) from a popped pixel carrying a different
+label. -/
+theorem C04_spec_lines_exact (surf markers : Img Int) (bshape : List Nat) (bc : Array Int) (r : List Int) :
+    (cwatershedSpec surf markers bshape bc).lines.getD r false = true ↔
+      ∃ ev ∈ cwatershedSpecTrace surf markers bshape bc,
+        ev.q = r ∧ ev.lq ≠ 0 ∧ ev.queued = true ∧ ev.lp ≠ ev.lq :=
+  cwatershedSpec_lines_exact surf markers bshape bc r
+
+/-- non-vacuity of T8c: on the 2×3 example the specification makes 20 visits (the 14 of the kernel plus the
+6 centre visits whose zero delta the kernel skips); the same three make a line pixel -/
+example :
+    let surf : Img Int := ⟨[2, 3], #[0, 1, 2, 1, 0, 1]⟩
+    let mk : Img Int := ⟨[2, 3], #[1, 0, 0, 0, 0, 2]⟩
+    let bc : Array Int := #[0, 1, 0, 1, 1, 1, 0, 1, 0]
+    (cwatershedSpecTrace surf mk [3, 3] bc).length = 20 ∧
+    ((cwatershedSpecTrace surf mk [3, 3] bc).filter
+        (fun ev => ev.lq != 0 && ev.queued && ev.lp != ev.lq)).map (fun ev => (ev.p, ev.q, ev.lp, ev.lq))
+      = [([1, 1], [0, 1], 2, 1), ([1, 1], [1, 0], 2, 1), ([0, 1], [0, 2], 1, 2)] := by
+  decide +kernel
